@@ -136,7 +136,7 @@ func (h *vHub) postApi(b int, room string, body interface{}) {
 // goroutines; only the tables at rest are reported for it (whichever order the server took them in).
 func (h *vHub) exec(op string) string {
 	par := strings.HasPrefix(op, "par ")
-	if strings.HasPrefix(op, "joinrace ") {
+	if strings.HasPrefix(op, "joinrace ") || strings.HasPrefix(op, "vaddrace ") {
 		h.issue(op)
 		return h.collect(true)
 	}
@@ -381,6 +381,43 @@ func (h *vHub) issue(op string) {
 		close(hold)
 		h.mu.Lock()
 		h.roomHold, h.roomArrived = nil, nil
+		h.mu.Unlock()
+	case "vaddrace":
+		// vaddrace sN room key user c2: the internal session sN asks to add a virtual session; the backend's
+		// answer is held; the session is taken over by connection c2 and says bye there; then the answer arrives.
+		c, _ := h.sessionConn(f[1])
+		c2 := atoi(f[5])
+		if c < 0 {
+			break
+		}
+		hold := make(chan struct{})
+		arrived := make(chan struct{}, 1)
+		h.mu.Lock()
+		h.sessionOk = true
+		h.addHold, h.addArrived = hold, arrived
+		priv := ""
+		if n, err := strconv.Atoi(f[1][1:]); err == nil {
+			priv = h.privOf[n]
+		}
+		h.mu.Unlock()
+		h.send(c, map[string]interface{}{"id": h.nextId(), "type": "internal",
+			"internal": map[string]interface{}{"type": "addsession", "addsession": map[string]interface{}{
+				"sessionid": vDec(f[3]), "roomid": vDec(f[2]), "userid": vDec(f[4])}}})
+		select {
+		case <-arrived:
+		case <-time.After(2 * time.Second):
+		}
+		mid := h.nextId()
+		h.send(c2, map[string]interface{}{"id": mid, "type": "hello",
+			"hello": map[string]interface{}{"version": "1.0", "resumeid": priv}})
+		h.waitReply(c2, mid)
+		mid = h.nextId()
+		h.send(c2, map[string]interface{}{"id": mid, "type": "bye", "bye": map[string]interface{}{}})
+		h.waitReply(c2, mid)
+		time.Sleep(time.Duration(h.raceDelayMs) * time.Millisecond)
+		close(hold)
+		h.mu.Lock()
+		h.addHold, h.addArrived = nil, nil
 		h.mu.Unlock()
 	case "fed":
 		// the bookkeeping of a join of a federated room (processRoom: h.federatedSessions[session] = true)
@@ -1075,7 +1112,50 @@ func (g *vGen) someRs() string   { return g.rsids[g.r.intn(len(g.rsids))] }
 func (g *vGen) opening(kind int) string {
 	r := g.r
 	other := func(b int) int { return (b + 1 + r.intn(g.nb-1)) % g.nb }
-	switch kind % 10 {
+	switch kind % 12 {
+	case 11:
+		// an internal client's session ends (taken over by a second connection, bye there) while its request to
+		// add a virtual session is still waiting for the backend
+		b := r.intn(g.nb)
+		i := g.opHello(1, b, "i", "", r.intn(2), r.intn(2))
+		u := g.opHello(2, b, "c", g.someUser(), 0, 0)
+		room := g.someRoom()
+		g.opJoin(u, room, g.someRs(), "ok")
+		if r.chance(1, 2) {
+			g.opJoin(i, room, "", "ok")
+		}
+		if r.chance(1, 2) {
+			g.opVadd(i, room, "v0", g.someUser(), "-", 1)
+		}
+		g.opConnect(3)
+		g.emit("vaddrace s%d %s %s %s 3", i, vEnc(room), vEnc("v1"), vEnc(g.someUser()))
+		g.closeSess(i)
+		g.connOpen[1], g.connOpen[3] = false, false
+		delete(g.connSess, 1)
+		g.opMsgTo(u, u)
+		return "internal-session-ends-while-adding"
+	case 10:
+		// a session that is in the call leaves the room (which lives on through another member) and comes back:
+		// it is not in the call any more
+		b := r.intn(g.nb)
+		a := g.opHello(1, b, "c", g.someUser(), 0, 0)
+		o := g.opHello(2, b, "c", g.someUser(), 0, 0)
+		room := g.someRoom()
+		rsA, rsO := "nc1", "nc2"
+		g.opJoin(a, room, rsA, "ok")
+		g.opJoin(o, room, rsO, "ok")
+		g.emit("api %d %s incall %s:%d,%s:%d %s:%d,%s:%d", b, vEnc(room), rsA, 1+2*r.intn(4), rsO, 1+2*r.intn(4), rsA, 7, rsO, 7)
+		g.emit("msg s%d m c - %s", o, vEnc(g.someData()))
+		if r.chance(1, 2) {
+			g.opJoin(a, "", "", "ok")
+		} else {
+			g.opJoin(a, "roomC", "nc3", "ok")
+		}
+		g.emit("msg s%d m c - %s", o, vEnc(g.someData()))
+		g.opJoin(a, room, rsA, "ok")
+		g.emit("msg s%d %s c - %s", o, g.someKind(), vEnc(g.someData()))
+		g.emit("msg s%d m r - %s", o, vEnc(g.someData()))
+		return "in-call-leave-rejoin"
 	case 9:
 		// a session ends (bye on a second connection that took it over) while its own join is still waiting
 		// for the backend; then the held reply arrives: the join must not complete for a session that is gone
@@ -1256,6 +1336,12 @@ func (g *vGen) opening(kind int) string {
 		}
 		for k := 2 + r.intn(3); k > 0; k-- {
 			g.emit("msg s%d %s u %s %s", []int{a, a, x}[r.intn(3)], g.someKind(), vEnc(user), vEnc(g.someData()))
+		}
+		// ... which it has no longer once it left that room
+		if r.chance(2, 3) {
+			g.opJoin(a, "", "", "ok")
+			g.emit("msg s%d m u %s %s", a, vEnc(user), vEnc(g.someData()))
+			g.emit("msg s%d %s s s%d %s", a, g.someKind(), x, vEnc(g.someData()))
 		}
 		return "user-id-from-room"
 	case 5:
